@@ -1,1 +1,148 @@
 //! Hooks owned by property C09 (feature `verif-hooks`).
+//!
+//! * [`parse_expr`]: the parse tree of one source expression as an
+//!   s-expression (operators by their `ast::BinOp` names, literals with their
+//!   decoded values), or the parse error;
+//! * [`tokens`]: the lexer's token stream with byte spans;
+//! * the `unicode-ident` predicates the lexer uses.
+
+use std::panic::{AssertUnwindSafe, catch_unwind};
+
+use crate::ast::{Expr, FStringPart, Literal};
+use crate::parser::{Parser, lexer::Lexer, meta::Spans};
+
+fn hex(s: &str) -> String {
+    if s.is_empty() {
+        return "-".into();
+    }
+    s.bytes().map(|b| format!("{b:02x}")).collect()
+}
+
+fn sexp(e: &Expr, out: &mut String) {
+    match e {
+        Expr::BinOp(l, op, r) => {
+            out.push_str(&format!("({op:?} "));
+            sexp(&l.node, out);
+            out.push(' ');
+            sexp(&r.node, out);
+            out.push(')');
+        }
+        Expr::Not(x) => {
+            out.push_str("(Not ");
+            sexp(&x.node, out);
+            out.push(')');
+        }
+        Expr::Negate(x) => {
+            out.push_str("(Negate ");
+            sexp(&x.node, out);
+            out.push(')');
+        }
+        Expr::Path(p) => {
+            let v: Vec<&str> =
+                p.node.idents.iter().map(|i| i.node.as_str()).collect();
+            out.push_str(&v.join("."));
+        }
+        Expr::Literal(l) => match &l.node {
+            Literal::String(s) => out.push_str(&format!("(str {})", hex(s))),
+            Literal::Char(c) => out.push_str(&format!("(char {})", *c as u32)),
+            Literal::Asn(a) => {
+                out.push_str(&format!("(asn {})", a.into_u32()))
+            }
+            Literal::IpAddress(a) => out.push_str(&format!("(ip {a})")),
+            Literal::Integer(n, ty) => out.push_str(&match ty {
+                Some(t) => format!("(int {n} {})", format!("{t:?}").to_lowercase()),
+                None => format!("(int {n} -)"),
+            }),
+            Literal::Float(f, ty) => out.push_str(&match ty {
+                Some(t) => format!(
+                    "(float {} {})",
+                    f.to_bits(),
+                    format!("{t:?}").to_lowercase()
+                ),
+                None => format!("(float {} -)", f.to_bits()),
+            }),
+            Literal::Bool(b) => out.push_str(&format!("(bool {b})")),
+            Literal::Unit => out.push_str("(unit)"),
+        },
+        Expr::FString(parts) => {
+            out.push_str("(fstr");
+            for p in parts {
+                match &p.node {
+                    FStringPart::String(s) => {
+                        out.push_str(&format!(" (text {})", hex(s)))
+                    }
+                    FStringPart::Expr(e) => {
+                        out.push_str(" (hole ");
+                        sexp(&e.node, out);
+                        out.push(')');
+                    }
+                }
+            }
+            out.push(')');
+        }
+        _ => out.push_str("(other)"),
+    }
+}
+
+fn panic_text(e: Box<dyn std::any::Any + Send>) -> String {
+    if let Some(s) = e.downcast_ref::<String>() {
+        format!("PANIC {s}")
+    } else if let Some(s) = e.downcast_ref::<&str>() {
+        format!("PANIC {s}")
+    } else {
+        "PANIC".to_string()
+    }
+}
+
+/// Parse `src` as one complete expression (`Parser::expr`, entire input).
+pub fn parse_expr(src: &str) -> Result<String, String> {
+    let res = catch_unwind(AssertUnwindSafe(|| {
+        let mut spans = Spans::default();
+        match Parser::run_parser(Parser::expr, 0, &mut spans, src) {
+            Ok(e) => {
+                let mut out = String::new();
+                sexp(&e.node, &mut out);
+                Ok(out)
+            }
+            Err(e) => Err(format!("{e}")),
+        }
+    }));
+    match res {
+        Ok(r) => r,
+        Err(e) => Err(panic_text(e)),
+    }
+}
+
+/// The token stream of `src`: `(debug text of the token, start, end)`;
+/// an unlexable position gives `Err`.
+pub fn tokens(
+    src: &str,
+    skip_shebang: bool,
+) -> Result<Vec<(String, usize, usize)>, String> {
+    let res = catch_unwind(AssertUnwindSafe(|| {
+        let mut lexer = Lexer::new(src);
+        if skip_shebang {
+            lexer.skip_shebang();
+        }
+        let mut out = Vec::new();
+        while let Some((tok, span)) = lexer.next() {
+            match tok {
+                Ok(t) => out.push((format!("{t:?}"), span.start, span.end)),
+                Err(()) => return Err(format!("invalid token at {}", span.start)),
+            }
+        }
+        Ok(out)
+    }));
+    match res {
+        Ok(r) => r,
+        Err(e) => Err(panic_text(e)),
+    }
+}
+
+pub fn is_xid_start(c: char) -> bool {
+    unicode_ident::is_xid_start(c)
+}
+
+pub fn is_xid_continue(c: char) -> bool {
+    unicode_ident::is_xid_continue(c)
+}
